@@ -402,43 +402,84 @@ def r01_5_segments(chk, m):
 
 # ---------------------------------------------------------------------------------------------------- R01.6
 def r01_6_attribute_byte(chk, m):
+    """The attribute byte as a function of the constructor's three flags, decided by interpreting the class (whatever
+    container it keeps the flags in): 0x80 iff EFLR, 0x40 iff not first, 0x20 iff not last, the five low bits clear;
+    the methods that change an existing object (today: the padding setter) change bit 0 only; nobody outside the class
+    writes its fields."""
     ix = chk.ix
     sa = ix.get_class("SegmentAttributes")
-    chk.consult(sa.lookup("__init__"), sa.lookup("to_struct"))
-    w = sa.lookup_class_attr("weights")
-    wv = try_const(w[0]) if w else None
-    chk.require(wv == [128, 64, 32, 16, 8, 4, 2, 1], "R01.6", "weights", f"bit weights are {wv}", sa.where)
-    init = sa.lookup("__init__")
-    from ..terms import SELF as _SELF, pp as _pp
-    isum = chk.summary(init)
-    lists = [e for e in isum.effects if e.kind == "store_attr" and e.base == _SELF and e.value[0] == "list"]
-    if len(lists) != 1:
-        raise AnalysisError("SegmentAttributes.__init__: flag list literal not found")
-    el = lists[0].value[1]
-    field = lists[0].key
-    P = lambda n: ("param", n)  # noqa: E731
-    shape = len(el) == 8 and el[0] == P("is_eflr") and el[1] == ("not", P("is_first")) and el[2] == ("not", P("is_last")) \
-        and all(e == ("const", False) for e in el[3:])
-    chk.require(shape, "R01.6", "flag-positions",
-                f"flag list is {[_pp(e) for e in el]}; expected [is_eflr, not is_first, not is_last, False x5]",
-                lists[0].where)
-    # writers of the flag list outside __init__: only index 7 (padding)
+    init, to_struct = sa.lookup("__init__"), sa.lookup("to_struct")
+    chk.consult(init, to_struct)
+    from ..absint import sym_bool
+    it = Interp(ix)
+
+    def byte_of(o):
+        v = o.value
+        if not (isinstance(v, SeqV) and len(v.pieces) == 1 and v.pieces[0][0] == "pack:>B"
+                and isinstance(v.pieces[0][2][0], LinExpr) and v.pieces[0][2][0].is_const()):
+            return None
+        return int(v.pieces[0][2][0].const)
+
+    def expected_high(st):
+        bits = 0
+        for name, weight, when_set in (("is_eflr", 0x80, True), ("is_first", 0x40, False), ("is_last", 0x20, False)):
+            b = LinExpr.sym(name)
+            if entails(st.cons, ge(b, 1)):
+                bits |= weight if when_set else 0
+            elif entails(st.cons, le(b, 0)):
+                bits |= 0 if when_set else weight
+            else:
+                return None
+        return bits
+
+    st = State()
+    flags = [sym_bool(st, n) for n in ("is_eflr", "is_first", "is_last")]
+    names = init.param_names[1:4]
+    if names != ["is_eflr", "is_first", "is_last"]:
+        raise AnalysisError(f"SegmentAttributes.__init__ takes {names}, not (is_eflr, is_first, is_last)")
+    made = [o for o in it.construct(sa, flags, {}, st, init.node) if o.kind == "val"]
+    n_paths = 0
+    modifiers = [f for k, f in sa.methods.items() if f not in (init, to_struct) and f.kind in ("setter", "method")
+                 and len(f.param_names) == 2]
+    for o in made:
+        for o2 in it.call_function(to_struct, [o.value], {}, o.st.clone(), to_struct.node):
+            if o2.kind != "val":
+                chk.fail("R01.6", f"to_struct-raises:{o2.exc}", "the attribute byte cannot be made", to_struct.where)
+                continue
+            got, want = byte_of(o2), expected_high(o2.st)
+            if got is None or want is None:
+                raise AnalysisError("attribute byte is not a constant per combination of the three flags")
+            n_paths += 1
+            chk.require(got == want, "R01.6", f"flag-positions:{want:#04x}",
+                        f"attribute byte is {got:#04x} where (EFLR, predecessor, successor) require {want:#04x} and "
+                        f"the other bits must be clear", to_struct.where, nontrivial=(n_paths <= 8))
+        for mth in modifiers:
+            s2 = o.st.clone()
+            arg = sym_bool(s2, "new_flag")
+            for o3 in it.call_function(mth, [o.value, arg], {}, s2, mth.node):
+                if o3.kind != "val":
+                    continue
+                for o4 in it.call_function(to_struct, [o.value], {}, o3.st, to_struct.node):
+                    got, want = (byte_of(o4), expected_high(o4.st)) if o4.kind == "val" else (None, None)
+                    if got is None or want is None:
+                        raise AnalysisError(f"attribute byte after {mth.short} is not a constant")
+                    chk.require((got & 0xFE) == want, "R01.6", f"flag-writer:{mth.short}:{want:#04x}",
+                                f"{mth.short} changes more than the padding bit: byte {got:#04x}, flags require "
+                                f"{want:#04x} (+1 with padding)", mth.where, nontrivial=False)
+    chk.floor("flag combinations interpreted", n_paths, 8)
+    chk.floor("methods modifying a segment attribute object", len(modifiers), 1)
+    fields = {e.key for e in chk.summary(init).effects if e.kind == "store_attr"}
     for f in ix.functions.values():
+        if f.cls is not None and (f.cls is sa or sa in f.cls.mro()):
+            continue
+        sc = Scope(ix, f)
         for n in walk_local(f.node):
-            tg = []
-            if isinstance(n, ast.Assign):
-                tg = n.targets
-            elif isinstance(n, ast.AugAssign):
-                tg = [n.target]
+            tg = n.targets if isinstance(n, ast.Assign) else ([n.target] if isinstance(n, ast.AugAssign) else [])
             for t in tg:
-                if isinstance(t, ast.Subscript) and isinstance(t.value, ast.Attribute) and t.value.attr == field \
-                        and f.cls is not None and (f.cls is sa or sa in f.cls.mro()):
-                    idx = try_const(t.slice)
-                    chk.require(idx == 7, "R01.6", f"flag-writer:{f.short}[{idx}]",
-                                "a segment attribute bit other than 'padding' is written after construction",
-                                f"{f.module.relpath}:{n.lineno}")
-                if isinstance(t, ast.Attribute) and t.attr == field and f is not init and f.cls is sa:
-                    chk.fail("R01.6", f"flag-list-rebound:{f.short}", "the flag list is replaced after construction",
+                a = t.value if isinstance(t, ast.Subscript) else t
+                if isinstance(a, ast.Attribute) and a.attr in fields and ix.infer(a.value, sc) == ("inst", sa):
+                    chk.fail("R01.6", f"flag-writer-outside-the-class:{f.short}",
+                             "a segment attribute field is written from outside the class",
                              f"{f.module.relpath}:{n.lineno}")
     # semantic cross-check on every segment path: bits 7..5 agree with the record kind and the slice position
     for k, y in enumerate(m.yields):
